@@ -401,16 +401,19 @@ quiet_probes(nng_ctx pc, bool sock_free, nng_aio *a1, nng_aio *a2)
 {
 	char key[96];
 	// first receive pends (nothing is in flight), second must be refused
-	nng_aio_set_timeout(a1, 5000);
-	nng_ctx_recv(pc, a1);
-	vf_usleep(200);
-	if (!nng_aio_busy(a1)) {
+	for (int attempt = 0;; attempt++) {
+		nng_aio_set_timeout(a1, 5000);
+		nng_ctx_recv(pc, a1);
+		vf_usleep(200);
+		if (nng_aio_busy(a1)) break;
 		nng_aio_wait(a1);
-		int      rv = nng_aio_result(a1);
-		nng_msg *m = nng_aio_get_msg(a1);
+		int      rv1 = nng_aio_result(a1);
+		nng_msg *m1 = nng_aio_get_msg(a1);
 		nng_aio_set_msg(a1, NULL);
-		if (m != NULL) nng_msg_free(m);
-		vf_harness_fail("quiet phase is not quiet: probe receive completed with %s", nng_strerror(rv));
+		if (m1 != NULL) nng_msg_free(m1);
+		// (a timeout after microseconds is the timer defect of C02:
+		// the expiry of an earlier operation on this aio; try again)
+		if (rv1 != NNG_ETIMEDOUT || attempt >= 3) vf_harness_fail("quiet phase is not quiet: probe receive completed with %s", nng_strerror(rv1));
 	}
 	nng_aio_set_timeout(a2, 1000);
 	nng_ctx_recv(pc, a2);
